@@ -8,7 +8,7 @@
 //	    before Scan, inside the k-th AfterInodeVisited, inside the k-th Extract, inside the
 //	    k-th AfterExtractorRun (= between files), inside the j-th standalone extractor,
 //	    inside the j-th detector;
-//	(D) images: one file of size L-1, L, L+1 for MaxFileBytes L in {1,2,5,4096}, in layer 0
+//	(D') container scans of 2-3 layers holding a package list with sizes L-1, L, L+1, 3L per layer: no extraction the scan causes (incl. layer attribution) receives a file over MaxFileSize; (D) images: one file of size L-1, L, L+1 for MaxFileBytes L in {1,2,5,4096}, in layer 0
 //	    or 1, with or without an older smaller version underneath.
 //
 // Oracle: #AfterInodeVisited <= MaxInodes and FAILED iff the roots hold more inodes; no
@@ -28,6 +28,7 @@ import (
 	"os"
 	"path/filepath"
 	"strings"
+	"sync"
 	"time"
 
 	scalibr "github.com/google/osv-scalibr"
@@ -365,7 +366,7 @@ func main() {
 				st, det int
 				paths   bool
 				git     bool
-			}{{0, 0, false, false}, {1, 1, false, false}, {2, 2, false, false}, {1, 1, true, false}, {0, 0, false, true}, {1, 1, true, true}} {
+			}{{0, 0, false, false}, {1, 1, false, false}, {2, 2, false, false}, {1, 1, true, false}, {0, 0, false, true}, {1, 1, true, true}, {2, 0, false, false}, {0, 2, false, false}} {
 				if pl.paths && len(reqPaths) == 0 {
 					continue
 				}
@@ -480,8 +481,9 @@ func main() {
 		r.Set(fmt.Sprintf("trees_with_%d_nodes", n), len(trees))
 	}
 	imagePart(r)
+	containerLimits(r)
 	hugeSizes(r)
-	r.Finish(fmt.Sprintf("every tree with <=%d nodes (dirs a,b; p1.txt size 1, p2.txt size 5 required by two extractors, junk): (A) every MaxInodes in 0..n+1 with 1 and 2 roots, gitignore handling off and on; (B) MaxFileSize in {0,1,s-1,s,s+1} for every file size s, and through a symlink to the 5-byte file with ReadSymlinks on; (B'') Stat sizes 2^31-1..2^63-1 x limits around the same boundaries; (C) cancellation at every event of the uncancelled run (inode visit, Extract, AfterExtractorRun, standalone extractor, detector; and before Scan) for 0/1/2 standalone extractors and detectors, whole-tree walk and explicit-path mode (first directory + first required file requested), gitignore handling off and on; (D) images: file size L-1,L,L+1 x MaxFileBytes L in {1,2,5,4096} x layer position x older version underneath. non-trivial = limit actually hit / work actually cut", maxNodes), complete)
+	r.Finish(fmt.Sprintf("every tree with <=%d nodes (dirs a,b; p1.txt size 1, p2.txt size 5 required by two extractors, junk): (A) every MaxInodes in 0..n+1 with 1 and 2 roots, gitignore handling off and on; (B) MaxFileSize in {0,1,s-1,s,s+1} for every file size s, and through a symlink to the 5-byte file with ReadSymlinks on; (B'') Stat sizes 2^31-1..2^63-1 x limits around the same boundaries; (C) cancellation at every event of the uncancelled run (inode visit, Extract, AfterExtractorRun, standalone extractor, detector; and before Scan) for 0/1/2 standalone extractors and detectors (also two standalone extractors without detectors and two detectors without standalone extractors), whole-tree walk and explicit-path mode (first directory + first required file requested), gitignore handling off and on; (D') container scans of 2-3 layers holding a package list with sizes L-1, L, L+1, 3L per layer: no extraction the scan causes (incl. layer attribution) receives a file over MaxFileSize; (D) images: file size L-1,L,L+1 x MaxFileBytes L in {1,2,5,4096} x layer position x older version underneath. non-trivial = limit actually hit / work actually cut", maxNodes), complete)
 }
 
 // hugeSizes: (B”) file sizes around the 32-bit and 63-bit boundaries (reported by Stat; the
@@ -533,6 +535,75 @@ func evAt(evs []event, at int) any {
 }
 
 // (D) image byte limit
+// containerLimits: (D') the size limit of a container scan binds every extraction the scan causes,
+// including the re-extraction of older layers' versions of a file for layer attribution. A package
+// list p.list exists in 2..3 layers with sizes around the limit; whatever ScanContainer does, no
+// Extract call may receive a file larger than MaxFileSize, and the inode limit stays a bound too.
+func containerLimits(r *ev.Run) {
+	base, err := os.MkdirTemp("/dev/shm", "c10c-")
+	if err != nil {
+		base, _ = os.MkdirTemp("", "c10c-")
+	}
+	os.Setenv("TMPDIR", base)
+	defer os.RemoveAll(base)
+	const L = 20
+	pad := func(n int) string { return "A 1\n" + strings.Repeat("#", n-4) }
+	sizes := []int{L - 1, L, L + 1, 3 * L}
+	var histories [][]int
+	for _, a := range sizes {
+		for _, b := range sizes {
+			histories = append(histories, []int{a, b})
+			for _, c := range sizes {
+				histories = append(histories, []int{a, b, c})
+			}
+		}
+	}
+	for _, h := range histories {
+		var tars [][]byte
+		for i, sz := range h {
+			es := []imgkit.Entry{imgkit.File("etc/p.list", pad(sz))}
+			if i == 0 {
+				es = append([]imgkit.Entry{imgkit.Dir("etc")}, es...)
+			}
+			tars = append(tars, imgkit.TarBytes(es))
+		}
+		img, err := image.FromV1Image(imgkit.NewImage(tars, nil), image.DefaultConfig())
+		if err != nil {
+			r.Violation("image-load-error", err.Error(), map[string]any{"sizes": h})
+			continue
+		}
+		var mu sync.Mutex
+		var over []string
+		calls := 0
+		ex := &scankit.Ex{N: "list-ex", Req: func(api filesystem.FileAPI) bool { return strings.HasSuffix(api.Path(), ".list") }, Hook: func(in *filesystem.ScanInput) {
+			mu.Lock()
+			defer mu.Unlock()
+			calls++
+			if in.Info != nil && in.Info.Size() > L {
+				over = append(over, fmt.Sprintf("%s (%d bytes)", in.Path, in.Info.Size()))
+			}
+		}}
+		cfg := &scalibr.ScanConfig{FilesystemExtractors: []filesystem.Extractor{ex}, Capabilities: &plugin.Capabilities{}, MaxFileSize: L}
+		_, serr := scalibr.New().ScanContainer(context.Background(), img, cfg)
+		img.CleanUp()
+		r.Evals.Add(1)
+		rp := map[string]any{"file_sizes_per_layer": h, "max_file_size": L}
+		big := false
+		for _, sz := range h {
+			big = big || sz > L
+		}
+		if big {
+			r.Nontrivial.Add(1)
+		}
+		if serr != nil {
+			r.Violation("scan-container-error", serr.Error(), rp)
+		}
+		if len(over) > 0 {
+			r.Violation("file-over-size-limit-extracted", fmt.Sprintf("container scan, p.list has sizes %v in layers 0.., MaxFileSize=%d: Extract received %v", h, L, over), rp)
+		}
+	}
+}
+
 func imagePart(r *ev.Run) {
 	base, err := os.MkdirTemp("/dev/shm", "c10-")
 	if err != nil {
